@@ -530,3 +530,19 @@ CASES += [
             if check(SymbolicBDDToken::Hash, tokens).is_err() {''', new='''        loop {
             if check(SymbolicBDDToken::CloseSquare, tokens).is_err() {''', expect={'C04': 'A2', 'C08': 'A2'}),
 ]
+
+# fourth round: six *larger* refactorings per area (20-120 changed lines each: new enums, context structs, shared generic helpers).
+# 13 of the 24 are silent; the other 11 make a syntactic engine fail closed (UNDECIDABLE / VACUITY) and are listed in DESIGN.md 15.2 as
+# known conservative alarms - they are kept here as documentation (kind 'known-alarm' is not run).
+_BN4_SILENT = {13: [1, 2, 3, 4, 5, 6], 14: [4, 6], 15: [5, 6], 16: [2, 3, 6]}
+_BN4_CHECKS = {13: _BN3[9], 14: _BN3[10], 15: _BN3[11], 16: _BN3[12]}
+_BN4_FILE = {13: B, 14: P, 15: M, 16: Q}
+for _k in (13, 14, 15, 16):
+    for _n in range(1, 7):
+        CASES.append(dict(id='bn%d-%02d' % (_k, _n), kind='silent' if _n in _BN4_SILENT[_k] else 'known-alarm', file=_BN4_FILE[_k], patch='bn%d-%02d.diff' % (_k, _n),
+                          checks=_BN4_CHECKS[_k], control=False))
+
+CASES += [
+ dict(id='shared-apply-wrong-neutral', kind='fire', file=B, patch='bn13-01.diff', old='            (BDD::True | BDD::False, _) => Rc::clone(&b),', new='            (BDD::True | BDD::False, _) => Rc::clone(&a),', expect={'C03': 'S'}, control=False),
+ dict(id='count-ladder-wrong-step', kind='fire', file=B, patch='bn13-03.diff', old='Self::Down => n - 1,', new='Self::Down => n - 2,', expect={'C05': 'S'}, control=False),
+]
